@@ -107,6 +107,13 @@ impl Vm {
                 return Err(e);
             }
         };
+        // A new evaluation starts on an empty stack: the frames of one that was abandoned
+        // between two slices would otherwise stay below it, as roots, for good.
+        self.stack.clear();
+        *self.stack.get_sp_mut() = 0;
+        self.bp = 0;
+        self.ep = usize::MAX;
+        self.acc = VCell::undefined();
         trace!("entry: \n{}", self.decompile_text(&lambda));
         let lambda = self.heap.put(lambda);
         self.ip.0 = lambda.as_ptr().unwrap();
